@@ -15,13 +15,17 @@ def to_scenario(sid, hist, rng, typ):
     l0 = REAL_LIMIT[rng.randint(3, 8)]
     up = {"name": "u1", "type": typ, "strategy": "globalAllocate", "max": l0, "burst": l0 * rng.choice([1, 2]) if typ == "tb" else 0}
     steps = [{"k": "hb", "inst": "i%d" % i} for i in (1, 2, 3)]
+    cur = l0
     for h in hist:
         if h["k"] == "report":
             steps.append({"k": "hb", "inst": "i%d" % h["inst"]})
             steps.append({"k": "report", "up": "u1", "inst": "i%d" % h["inst"], "uc": h["uc"], "lc": h["lc"]})
+        elif h["k"] == "burst":
+            if typ == "tb":      # only the burst changes
+                steps.append({"k": "limit", "up": "u1", "max": cur, "burst": cur * h["max"]})
         else:
-            m = REAL_LIMIT[h["max"]]
-            steps.append({"k": "limit", "up": "u1", "max": m, "burst": m * 2 if typ == "tb" else 0})
+            m = cur = REAL_LIMIT[h["max"]]
+            steps.append({"k": "limit", "up": "u1", "max": m, "burst": m * rng.choice([1, 2, 3]) if typ == "tb" else 0})
     return {"id": sid, "shards": 1 + sid % 3, "servers": ["A"], "store": "local" if sid % 4 else "k8s", "upstreams": [up], "steps": steps}
 
 
@@ -133,7 +137,7 @@ def main(tier, replay):
                     continue
                 pre = [{"inst": k, "q": q} for k, q in sorted(e["pre"].get("quotas", {}).items())]
                 post = [{"inst": k, "q": q} for k, q in sorted(e["post"].get("quotas", {}).items())]
-                evs.append({"k": "report", "inst": e["inst"], "limit": e["pre"].get("limit", 0), "blimit": e["pre"].get("blimit", 0), "type": e["type"],
+                evs.append({"k": "report", "inst": e["inst"], "limit": e.get("cfgLimit", e["pre"].get("limit", 0)), "blimit": e.get("cfgBurst", e["pre"].get("blimit", 0)) if e["type"] == "tb" else 0, "type": e["type"],
                             "answered": "err" not in e, "ans": e.get("ans", 0), "bans": e.get("bans", 0), "pre": pre, "post": post,
                             "err": e.get("err", "")})
                 nrep += 1
